@@ -192,7 +192,12 @@ def run(params):
             for e, _tg in s_.lines:
                 for a in atoms(e):
                     cust = prog.tasks[a.task].customs
-                    if a.is_abs() and cust and rng2.random() < 0.5:
+                    # (not where the atom may be the one that marks the
+                    # task's success optional in the graph text: the
+                    # outcome plan would go on treating it as optional)
+                    if a.is_abs() and cust and a.output == 'succeeded' and (
+                            not prog.tasks[a.task].opt.get('succeeded')
+                    ) and rng2.random() < 0.5:
                         a.output = rng2.choice(cust)
                         aw.custom_abs = True
         if how == 'stop':
